@@ -71,7 +71,9 @@ def _datasets(case):
         val = rval.copy()
         err = 0.25 + np.arange(n, dtype=float) / 16.0 + d / 64.0
         for b, st in enumerate(row):
-            if st == 1:
+            if st == 1 and case.get('nan'):
+                val[b] = np.nan            # undefined on one side only: the bin fails
+            elif st == 1:
                 val[b] += 1000.0 * (d + 1)
             elif st == 2:
                 val[b] += MID_T * float(np.sqrt(rerr[b] ** 2 + err[b] ** 2))
@@ -843,6 +845,13 @@ def run_c12(ctx):
             if sig not in seen:
                 seen.add(sig)
                 cases.append(c)
+    # failing bins that fail because the compared value is undefined (NaN on one side): same expected rendering
+    twins = [dict(c, nan=True) for c in cases
+             if c['kind'] in DS_KINDS and c['verb'] != 'SILENT' and len(c['shape']) >= 1
+             and any(any(x == 1 for x in r) for r in c['fail'])]
+    if ctx.quick:
+        twins = [c for c in twins if len(c['fail']) == 1][::2]
+    cases += twins
     n_enum = len(cases)
     # 3. code -> spec: random results outside the enumerated domain (rendered and judged in the same batches)
     cases += [c for c in random_render_cases(ctx.rng, ctx.pick(1000, 20000)) if json.dumps(c, sort_keys=True) not in seen]
